@@ -23,6 +23,8 @@ type c14Case struct {
 	// ValPass: special sample values (both zeros, tiny and huge magnitudes, infinities, integer bounds)
 	// read and written through the view of channel Chan, compared by bit pattern
 	ValPass bool `json:"val_pass,omitempty"`
+	// Pooled: c14Pooled(Type, C, L, P): views of a recycled pool buffer (only these four fields matter)
+	Pooled bool `json:"pooled,omitempty"`
 }
 
 func c14Run(cs c14Case) []F {
@@ -125,6 +127,9 @@ func c14Values(cs c14Case) (fs []F) {
 }
 
 func c14RunRaw(cs c14Case) (fs []F) {
+	if cs.Pooled {
+		return c14Pooled(typeByName(cs.Type), cs.C, cs.L, cs.P)
+	}
 	if cs.Huge {
 		return c14HugeRun(cs, nil)
 	}
@@ -198,7 +203,56 @@ func c14RunRaw(cs c14Case) (fs []F) {
 		if p, _ := dyn.Try(func() { got = ch.Sample(i) }); !p && got.Tok() != tok {
 			fail("readback", "SetSample(%d,%d) then Sample(%d) reads %d", i, tok, i, got.Tok())
 		}
-		tok = tk(tok + 1)
+		// the same value stored through the view once more after the sample was overwritten another way
+		if p, _ := dyn.Try(func() { root.SetSample(off+pos, dyn.Tok(t, tk(tok+1))); ch.SetSample(i, dyn.Tok(t, tok)) }); !p {
+			if g := root.Sample(off + pos).Tok(); g != tok {
+				fail("set", "SetSample(%d,%d) through the view, the sample overwritten through the parent storage, SetSample(%d,%d) through the view again: the sample reads %d", i, tok, i, tok, g)
+			}
+		}
+		tok = tk(tok + 2)
+	}
+	if len(fs) > 0 || cs.Chan != 0 {
+		return
+	}
+	// all views of the parent read in turn, frame by frame (one sample from each view, then the next frame)
+	views := make([]dyn.Chan, cs.C)
+	for c := range views {
+		views[c] = parent.Channel(c)
+	}
+	for i := 0; i < wantLen; i++ {
+		for c, v := range views {
+			pos := cs.C*i + c
+			if pos >= plen {
+				continue
+			}
+			var got dyn.Val
+			if p, msg := dyn.Try(func() { got = v.Sample(i) }); p {
+				fail("sample-panic", "reading the views of all channels in turn: Sample(%d) of channel %d panicked: %s", i, c, msg)
+				return
+			} else if got.Tok() != st.cells[off+pos] {
+				fail("sample", "reading the views of all channels in turn, frame by frame: Sample(%d) of the view of channel %d reads %d, the parent holds %d there", i, c, got.Tok(), st.cells[off+pos])
+				return
+			}
+		}
+	}
+	return
+}
+
+// c14Pooled: views of a pool buffer that was grown to its capacity by its previous holder and recycled.
+func c14Pooled(t, C, L, K int) (fs []F) {
+	pool := dyn.NewPool(t, al(C, L, K))
+	for round := 0; round < 3; round++ {
+		b := pool.Get()
+		for c := 0; c < C; c++ {
+			v := b.Channel(c)
+			if g, w := v.Length(), b.Length(); g != w || g != L || v.Capacity() != K {
+				return append(fs, core.Failf("Channel/shape", "PoolAlloc[%s](C=%d,L=%d,K=%d), round %d (the previous holder filled the buffer to its capacity before putting it back): the view of channel %d has Length %d Capacity %d, the buffer Length %d Capacity %d", tn(t), C, L, K, round, c, g, v.Capacity(), w, b.Capacity()))
+			}
+		}
+		for i := b.Len(); i < b.Cap(); i++ {
+			b.AppendSample(dyn.Tok(t, tk(int64(i+1))))
+		}
+		pool.Put(b)
 	}
 	return
 }
@@ -207,6 +261,12 @@ func init() {
 	core.Register(&core.Prop{
 		ID: "C14", Level: "exploration", Design: "§5 C14",
 		Run: func(c *core.Ctx) {
+			for _, t := range []int{dyn.Int8, dyn.Int32, dyn.Float64} {
+				for _, sh := range [][3]int{{1, 2, 4}, {2, 2, 4}, {3, 0, 2}, {2, 1, 5}} {
+					fs := core.Guard("Channel", func() []F { return c14Pooled(t, sh[0], sh[1], sh[2]) })
+					c.Check(c14Case{Type: tn(t), C: sh[0], P: sh[2], L: sh[1], Pooled: true}, true, fs)
+				}
+			}
 			var cases []c14Case
 			for t := 0; t < dyn.NB; t++ {
 				for C := 1; C <= 8; C++ {
